@@ -95,6 +95,7 @@ class Run:
                 self.ops[op["id"]] = op
         self.sim = simgrpc.Sim(None)
         self.sim.numeric_enums = bool((world.spec.get("options") or {}).get("rest-numeric-enums"))
+        self.sim.json_pool = world.codec.pool
         self.server = server_factory(self)
         self.sim.server = self.server
         self.clients = {}
